@@ -6,8 +6,10 @@ stdout is captured, and the record is judged by
 
   update      x_after - x_before = alpha * F_returned for every evaluation (round-off only), and nothing else moves the
               coordinates between evaluations (x_before[i+1] bitwise x_after[i]; final coordinates bitwise x_after[last])
-  fresh-force F_i and E_i equal an INDEPENDENT single point (fresh Molecule + Electronic_Structure, cold start, Pulay,
-              scf_eps 1e-11) at the recorded x_i - no stale / sign-flipped / wrong-geometry force (C04 bound)
+  fresh-force F_i and E_i equal an INDEPENDENT single point (fresh Molecule + Electronic_Structure, scf_eps 1e-11) at the
+              recorded x_i - no stale / sign-flipped / wrong-geometry force (5x the C04 bound).  Cold Pulay first; because
+              cold starts can land on another SCF solution than the warm-started run, cold adaptive / fixed mixing and
+              finally a fresh start from the density recorded at that evaluation are tried for rows that do not match
   descent     for alpha <= 2e-3: E_{i+1} <= E_i + 10 eps for every molecule of the batch
   stop        the number of evaluations n is min(first i with max|F_i| <= tol, cap): no evaluation before the last one
               met the criterion, and the run did not stop early without meeting it
@@ -17,7 +19,8 @@ stdout is captured, and the record is judged by
               log lines reproduce the recorded max force / Etot / dE
   padding     padding coordinates bitwise unchanged
   isolation   path of every molecule alone (same alpha / tolerance / cap) equals its path in the batch within 1e-7 A on
-              the common prefix
+              the common prefix (alpha <= 2e-3; for larger alpha the update map can be expansive, so only the first
+              three evaluations are judged and the rest recorded)
 """
 import math
 import re
@@ -45,6 +48,7 @@ EPS = 2.220446049250313e-16
 EPS_REF = 1e-11
 ALPHA_DESCENT = 2e-3
 TOL_PATH = 1e-7
+MECH_SCF = "scf-solution-depends-on-batch-mates"
 
 
 def gen_cases(tier, seed):
@@ -149,7 +153,9 @@ def _sd_run(case, S, C, charges, mults, alpha, tol, cap):
         xb = molecule.coordinates.detach().clone().numpy()
         f, e = orig(molecule, learned_parameters=learned_parameters)
         nc = getattr(sd.esdriver, "notconverged", None)
+        dm = getattr(molecule, "dm", None)
         rec.append({"xb": xb, "F": f.detach().clone().numpy(), "E": e.detach().clone().numpy().reshape(-1),
+                    "dm": None if dm is None else dm.detach().clone().numpy(),
                     "xa": molecule.coordinates.detach().clone().numpy(),
                     "nc": None if nc is None else np.asarray(nc.detach().clone().numpy(), bool).reshape(-1)})
         return f, e
@@ -239,18 +245,26 @@ def run_case(case):
     # run (seen: MNDO PH3, cold Pulay converges, flagged converged, to a state 37 eV above the one every other solver and
     # the optimiser find).  That is C03/C04 territory, not a stale force: a row passes when the recorded (E, F) equal those
     # of SOME cold-started solver at the recorded x_i; the alternates are only run for rows the first one does not match.
-    def cold_solvers():
-        yield "pulay", run.settings(case["method"], eps=EPS_REF, converger=(2,), grad=case["grad"])
-        yield "adaptive", run.settings(case["method"], eps=EPS_REF, converger=(1,), grad=case["grad"])
-        yield "mix0.3", run.settings(case["method"], eps=EPS_REF, converger=(0, 0.3), grad=case["grad"])
+    # Last resort (seen: AM1 H2S, the run's own first cold Pulay lands on a state 14 eV above the ground SCF solution
+    # and the optimiser then follows it by density reuse, so NO cold start reproduces it): a fresh Molecule + driver at
+    # x_i started from the density the run had at that evaluation.  Still a single point at the recorded geometry,
+    # outside the optimiser: a stale / sign-flipped / wrong-geometry force cannot match it.
+    def cold_solvers(i):
+        yield "pulay", run.settings(case["method"], eps=EPS_REF, converger=(2,), grad=case["grad"]), None
+        yield "adaptive", run.settings(case["method"], eps=EPS_REF, converger=(1,), grad=case["grad"]), None
+        yield "mix0.3", run.settings(case["method"], eps=EPS_REF, converger=(0, 0.3), grad=case["grad"]), None
+        if rec[i].get("dm") is not None:
+            warm = _settings(case)  # the run's own solver (another one may leave the state the run is on)
+            warm["scf_eps"] = EPS_REF
+            yield "warm-from-recorded-density", warm, rec[i]["dm"]
 
     for i in idx:
         best = [(float("inf"), float("inf"), None)] * nmol
         ran = 0
-        for sname, sett in cold_solvers():
+        for sname, sett, P0 in cold_solvers(i):
             if all(bf <= tolF and be <= tolE for bf, be, _ in best):
                 break
-            sp = run.single_point(S, rec[i]["xb"], sett, charges=ch, mult=1)
+            sp = run.single_point(S, rec[i]["xb"], sett, charges=ch, mult=1, P0=P0)
             ran += 1
             ncv = sp["notconverged"]
             for k in range(nmol):
@@ -268,6 +282,8 @@ def run_case(case):
         count("independent_single_points")
         if any(bs != "pulay" for _, _, bs in best):
             count("cold_pulay_found_another_scf_solution")
+        if any(bs == "warm-from-recorded-density" for _, _, bs in best):
+            count("run_follows_a_solution_no_cold_start_finds")
         dF = max(bf for bf, _, _ in best)
         dE = max(be for _, be, _ in best)
         if margin("force_vs_independent_single_point", dF, tolF):
@@ -376,11 +392,32 @@ def run_case(case):
                 count("alone_run_not_converged")
                 continue
             pre = min(n, len(alone["rec"]))
+            # x -> x + alpha F(x) amplifies any difference by |1 - alpha lambda| per evaluation; for alpha <= 2e-3 that is
+            # <= 1 for every bond type of the library (the descent precondition), so the layout-dependent rounding of the
+            # forces (1e-9 eV/A) stays at n alpha 1e-9.  Beyond it the map can be expansive (seen: alpha = 2e-2, C2H4, 40
+            # evaluations, 5e-5 A), so only the first 3 evaluations are judged there and the rest is recorded.
+            full = pre
+            if alpha > ALPHA_DESCENT:
+                pre = min(pre, 3)
+                dfull = max(float(np.abs(alone["rec"][i]["xa"][0] - rec[i]["xa"][k, :nk]).max()) for i in range(full))
+                if dfull > TOL_PATH:
+                    count("alone_vs_batch_amplified_at_large_alpha_recorded")
             count("alone_vs_batch_rows")
             count("alone_vs_batch_prefix_evaluations", pre)
             d = max(float(np.abs(alone["rec"][i]["xa"][0] - rec[i]["xa"][k, :nk]).max()) for i in range(pre))
-            if margin("alone_vs_batch_path", d, TOL_PATH):
-                violate("path-independent-of-batch-mates", molecule=int(k), name=case["mols"][k], max_diff=d, prefix=pre)
+            # mechanism classifier: at the first evaluation the geometry is bitwise the same and both SCFs start cold; if the
+            # energies already differ there the two runs sit on different self-consistent solutions (the SCF driver's
+            # answer for this molecule depends on its batch mates) and the optimiser merely follows them
+            dE1 = abs(float(alone["rec"][0]["E"][0]) - float(rec[0]["E"][k]))
+            mech = MECH_SCF if dE1 > 1e-6 else None
+            if mech is None and margin("alone_vs_batch_path", d, TOL_PATH) or mech is not None and d > TOL_PATH:
+                count("alone_vs_batch_scf_solution_differs", mech is not None)
+                viol.append({"clause": "path-independent-of-batch-mates", "mech": mech,
+                             "detail": {"molecule": int(k), "name": case["mols"][k], "max_diff_A": d, "prefix": pre,
+                                        "E_first_evaluation_alone": float(alone["rec"][0]["E"][0]),
+                                        "E_first_evaluation_in_batch": float(rec[0]["E"][k]), "mols": case["mols"],
+                                        "alpha": alpha, "solver": case["solver"], "method": case["method"],
+                                        "species": S.tolist(), "start_coordinates": C0.tolist()}})
             # the lone molecule must obey the same stop rule on its own forces
             ma = np.array([float(np.abs(r["F"]).max()) for r in alone["rec"]])
             meta = ma <= tol
